@@ -228,7 +228,14 @@ class Actor(object):
             elif op == 'unlock_use':
                 if not m.protected:
                     return False
-                k.sign('inside')
+                from pgpy.errors import PGPError
+                try:
+                    k.sign('inside')
+                except PGPError as e:
+                    # the identity whose flags count now (after revocations / removals) may not grant Sign: a policy refusal, judged by C16
+                    if 'usage flag' not in str(e):
+                        raise
+                    return False
             elif op == 'pubkey':
                 self.held = k.pubkey
             elif op == 'copy':
